@@ -77,7 +77,22 @@ def gen(rng, tier, spec):
     if rng.chance(1, 3) and ncalls:
         cfg = sorted(set(rng.below(ncalls + 1) for _ in range(rng.range(1, 2))))
     cw = ((14, 0), (1, 1), (1, 2))
-    kind = rng.below(5)
+    kind = rng.below(6)
+    if kind == 5:
+        # boundary-aimed at the copy of a node's pointer: thread 0 looks an object up (by name / predicate / all)
+        # and is pre-empted after k of its steps (after its lock, inside its copy window, right after its unlock)
+        # while thread 1 removes that very entry; then thread 0 goes on and uses what it got
+        n, v, ty, sl = rng.below(names), rng.below(VALS), rng.below(TYPES), rng.below(2)
+        look = rng.weighted([(4, [FINDNAME, n, sl]), (2, [FINDPRED, v, sl]), (1, [FINDPREDT, v, ty, sl]), (1, [COPY, n, (n + 1) % NAMES]),
+                             (1, [GETOBJS])])
+        rem = rng.weighted([(3, [REMNAME, n]), (2, [REMPRED, v])])
+        progs = [[look, [READ, sl], [DROP, sl]], [[ADDT, n, v, ty], rem, [GETOBJS]]]
+        if rng.chance(1, 3):
+            progs.append([gen_op(rng, names) for _ in range(rng.range(1, 3))])
+        k = rng.range(1, 7)
+        sched = [(1, 0)] * 3 + [(0, 0)] * k + [(1, 0)] * rng.range(4, 7) + [(0, 0)] * rng.range(0, 6)
+        sched += R.sched_random(rng, len(progs), rng.range(0, 12), cw)
+        return {'cfg': [], 'progs': progs, 'sched': sched}
     if kind == 4:
         # boundary-aimed: stop a thread between invoke and lock, between lock and unlock, between two predicate calls
         sched = R.sched_boundary(rng, nt, rng.below(nt), rng.range(1, 10), rng.range(0, 50), cw)
@@ -309,10 +324,23 @@ def mon_unlocked(case, lines):
             inside[t] = False
         elif k == K['CALL'] and not inside[t]:
             return 'line %d: thread %d calls the predicate (iterating the map) outside the critical section' % (i, t)
+        elif k in (K['RD_BEGIN'], K['RD_END'], K['WR_BEGIN'], K['WR_END']) and not inside[t]:
+            return ('line %d: thread %d %s the shared_ptr of a map node (instance %d) outside the critical section'
+                    % (i, t, 'copies' if k in (K['RD_BEGIN'], K['RD_END']) else 'destroys', o))
         elif k in (K['RET'], K['CATCH']) and 0 <= idx[t] < len(case['progs'][t]):
             op = case['progs'][t][idx[t]]
             if op[0] in LOCKED and not locked[t]:
                 return 'line %d: operation %s of thread %d accessed the maps without taking mapLock' % (i, op, t)
+    return None
+
+
+def mon_ptr_race(case, lines):
+    """the instrumented shared_ptr reported an overlap: a map node's pointer copied while / after it is destroyed"""
+    what = {1: 'its destruction began while a copy from it was in progress', 2: 'a copy from it began while it was being destroyed',
+            3: 'a copy from it began after it had been destroyed', 4: 'a copy from it completed after it had been destroyed'}
+    for i, t, k, o, v in _events(lines):
+        if k == K['FAULT']:
+            return 'line %d: thread %d, shared_ptr instance %d: %s' % (i, t, o, what.get(v, 'fault %d' % v))
     return None
 
 
@@ -326,4 +354,5 @@ def mon_progress(case, lines):
 
 
 MONITORS = {'seq_replay': mon_seq_replay, 'lifetime': mon_lifetime, 'mutex': mon_mutex, 'unlocked': mon_unlocked,
+            'ptr_race': mon_ptr_race,
             'progress': mon_progress}
